@@ -77,6 +77,11 @@ CHECKS = {
    text="Same lock-step log driver biased toward refusals: checked patches with checkpoints from current/earlier/sibling/forged heads (ground truth = sequence equality in the model, not the code's own root comparison), rewinds to any depth or absent targets, replace-all with wrong checkpoints; every refusal is followed by a byte-for-byte comparison of the record stream and tree with the state before.",
    note="Log-level half (a) of the design; the protocol-level half (stale requests against server and client merge paths) rides on the network world when present. Sampling only.",
    tech="deterministic simulation: seeded request/fault histories, refusal oracle against a sequential model"),
+ "C15": dict(cat="fault_enumeration", design="DESIGN.md section 6 C15",
+   text="Real histories and syncs produce the artefacts a hostile or damaged input would replace (event-log files of every log type, vault files, event payloads of every event type, request/response bodies of every sync message kind, a backup archive); each is mutated by the fault kinds a disk or peer produces (truncation at every offset when small, single-bit flips, 32-bit length-field edits, byte substitution over 0..=255 at tag positions, splices, short garbage) and fed to the normal entry points (event log open + load_tree + forward/reverse iteration, decode::<T>, header readers, wire decode, archive manifest reader, server handlers with a valid signature over the mutated body, hostile bearer tokens). Oracle: error or value; no panic (also in helper tasks, via a panic hook), no hang (20 s), peak allocation bounded in the input size (counting global allocator), the server answers the next valid request.",
+   note="Enumeration over mutation positions for small artefacts, seeded sampling for large ones; sampling over the histories that produce the artefacts. The allocation bound allows the codec's own 16 MiB max_buffer cap. One panic inside the third-party zip parser (overflow-check builds only) is a known finding.",
+   tech="deterministic simulation: fault injection on stored bytes and wire buffers (bit flips, truncation, length-field edits, splices) with panic / hang / allocation monitors"),
+
 }
 
 NOT_YET = {
